@@ -9,6 +9,7 @@ import ToastyVerif.Gen.Paths
 import ToastyVerif.Gen.FitsTiler
 import ToastyVerif.Gen.Study
 import ToastyVerif.Props.C08
+import ToastyVerif.Gen.Plumbing
 
 namespace C17
 open PathModel Gen.Paths
@@ -248,5 +249,9 @@ theorem fitstiler_facts : Gen.FitsTiler.fresh_builder_first = true ∧ Gen.FitsT
 /-! non-vacuity -/
 example : expand 3 5 12 (urlString url_LsYsYX ['p','n','g']) = "3/12/12_5.png".toList := by decide
 example : render path_LXY 10 0 1023 ['f','i','t','s'] = "L10X0Y1023.fits".toList := by decide
+
+/-- **entry_points**: the call sites through which this property's workflows reach the modelled functions have, in the source as
+it is now, the argument plumbing the model assumes (facts re-extracted on every run, `Gen/Plumbing.lean`) -/
+theorem entry_points : Gen.Plumbing.tile_toast_one_depth = true := by decide
 
 end C17
